@@ -38,6 +38,20 @@ FIXED = [
      "`@l; call @l; hold;` decompiled to `@label_0; call @label_0; jump @label_0;` (hold lost)"),
     ("C02", "fix: fall back to SsbScript when a jump to a label was written but not the label",
      "routines [[Jump->2nd End],[End, End]] and [Call->the Jump, Jump->the Call]: text referenced a label that was never written and did not compile (175 of 55k inputs); now the exact fallback"),
+    ("C13", "fix: cases that only break were printed as a jump when another case of the switch does the same",
+     "`switch ($V) { case 1: break; case 2: b(); break; case 3: break; }` came back as `case 1: default: @switch0_2; break; .. case 3: jump @switch0_2;` (14214 of 152k thorough programs, 388 of 6635 quick): a case edge to the switch end that is reached a second time was written as label + jump"),
+    ("C13", "fix: a default that shares its block with a case was printed as a jump into that case",
+     "`switch ($V) { case 1: a(); break; case 2: default: b(); break; }` came back as `case 2: @label_1; b(); break; default: jump @label_1;` (15406 of 152k thorough programs): the default's jump op was not followed when the switch was built, so default and case had different targets"),
+    ("C02", "fix: the code after an if was lost when its if-branch was written as a jump",
+     "`before(); if ($V0 == 0) { between(); after(); hold; end; } elseif (..) { if not (..) { jump @between; } } else { return; }`-shaped graphs: the path from the inner if's else edge to after() was dropped, the routine returned instead (most of the former C02-loops-misread list: 18.9k of 796k thorough inputs, and all 168 of C02-negated-leaving-elseif-before-jump-only-part)"),
+    ("C02", "fix: a call was continued with the called label when both edges have the same flow level",
+     "[@0: Call->@0, Jump->Return, Return] decompiled to `@label_0; call @label_0; jump @label_0;`: the Return was lost"),
+    ("C02", "fix: case and branch ops that belong to no switch or if were written as jump, continue or break_loop",
+     "[Jump->Case, Case 0->itself, Jump->Case] decompiled to `forever { continue; }`, the Case test disappeared; now the exact SsbScript fallback"),
+    ("C02", "fix: the label a routine starts with was removed when the only jump to it is the single or an unreachable one",
+     "[Jump->op2, BranchDebug->the entry Jump, op2, Jump->BranchDebug] started with the if instead of op2(); [Jump->J2, Jump->entry (unreachable), op2, J2: Jump->End, End] decompiled to `op2(); return;` (the former C02-entry-jump-targeted list, 42 inputs, and ~1500 cyclic ones)"),
+    ("C02", "fix: a with-block was written around a message switch, which the grammar rejects",
+     "[lives 1, message_SwitchTalk $V40, CaseText.., DefaultText.., End] (compiled from `with (actor 1) { jump @l; } @l; message_SwitchTalk ($V40) {..}`) decompiled to `with (actor 1) { message_SwitchTalk (..) {..} }`: ParseError when compiled again (the former C02-ctx-before-block entry); now the exact fallback"),
     ("C02", "fix: dungeon mode values other than 0..3 were printed as the 'closed' constant",
      "`switch (dungeon_mode(D)) { case DMODE_OPEN: .. }` (or any constant / other number as case value or flag_SetDungeonMode value) decompiled to `case DMODE_CLOSE:` (476 of 55k inputs under seed rotation 2)"),
     ("C09", "fix: inserted break_loop/continue statements overwrote the source map entry of the op before them",
